@@ -156,3 +156,11 @@ pub fn rec_execute(_ex: &mut redis_sim::redis::CommandExecutor, cmd: &redis_sim:
     }
     redis_sim::redis::RespValue::Integer(0)
 }
+
+/// `ring` stub kind: no vector of the ring code has to grow (get_replicas_with_rf allocates `Vec::with_capacity(n)` and
+/// pushes at most n ids). CBMC cannot see that once the length is a symbolic value, and then encodes the reallocation
+/// (a copy of symbolic size - the one location that made every rf >= 2 ring harness run out of memory). A growth that
+/// does happen is reported as a failed check (and then does not reproduce natively -> "not decided", never a pass).
+pub unsafe fn no_realloc(_p: *mut u8, _l: std::alloc::Layout, _n: usize) -> *mut u8 {
+    panic!("verif: a vector grew beyond its initial capacity (reallocation is not modelled in this harness)")
+}
